@@ -88,7 +88,7 @@ type rq struct {
 
 	// observed
 	S, E     int64 // logical ticks at start / end
-	T0       time.Duration
+	T0, T1   time.Duration
 	InvTrue  bool // CacheInvalidator returned true during this request
 	NextTrue bool
 	Exec     *exec // origin execution caused by this request
@@ -101,7 +101,8 @@ type rq struct {
 
 func (q *rq) mkey() string { return q.Method + " " + q.Key }
 
-func (q *rq) String() string {
+// spec renders the immutable part of the request (safe to call from any goroutine).
+func (q *rq) spec() string {
 	s := fmt.Sprintf("#%d %s %s", q.ID, q.Method, q.Key)
 	if q.NoCache {
 		s += " no-cache"
@@ -125,7 +126,12 @@ func (q *rq) String() string {
 	if q.Sleep > 0 {
 		s += fmt.Sprintf(", sleeps %ds", q.Sleep)
 	}
-	s += "]"
+	return s + "]"
+}
+
+// String adds what was observed (only for the goroutine that ran the request, or at quiescence).
+func (q *rq) String() string {
+	s := q.spec()
 	if q.Done {
 		s += fmt.Sprintf(" @%.3fs -> %d %q", q.T0.Seconds(), q.Resp.Status, q.Mark)
 		if q.Exec != nil {
@@ -189,15 +195,16 @@ type rig struct {
 	clk   int64
 	start time.Time
 
-	realtime bool              // race mode: no freshness, no virtual clock
-	yield    func(string)      // scheduler boundary (nil = sequential)
-	mask     map[string]bool   // enabled boundaries (nil = all)
-	trace    []string          // rendered requests, for witnesses
-	sigs     map[string]bool   // signatures already reported in this rig (one record per rig)
-	boundMax int               // largest vstore "_body" sum seen
-	boundOp  string
-	invMu    map[string][]*rq  // mkey -> requests for which the invalidator returned true
-	extra    map[string]any    // scenario / schedule, merged into every violation detail
+	realtime   bool            // race mode: no freshness, no virtual clock
+	yield      func(string)    // scheduler boundary (nil = sequential)
+	mask       map[string]bool // enabled boundaries (nil = all)
+	trace      []string        // rendered requests, for witnesses
+	sigs       map[string]bool // signatures already reported in this rig (one record per rig)
+	boundMax   int             // largest vstore "_body" sum seen
+	boundOp    string
+	invMu      map[string][]*rq // mkey -> requests for which the invalidator returned true
+	extra      map[string]any   // scenario / schedule, merged into every violation detail
+	concurrent bool             // requests overlapped at some point in this rig's life
 }
 
 func (g *rig) now() time.Duration {
@@ -252,10 +259,13 @@ func newRig(e *ev.Env, c *ev.Case, cf conf) *rig {
 		g.vs.Yield = func(p string) { g.y(p) }
 		if cf.MaxBytes > 0 {
 			g.vs.AfterOp = func(op vstore.Op) {
-				if sum := g.vs.SumSuffix("_body"); sum > g.boundMax {
+				sum := g.vs.SumSuffix("_body")
+				g.mu.Lock()
+				if sum > g.boundMax {
 					g.boundMax = sum
 					g.boundOp = fmt.Sprintf("%s %s (%d B)", op.Kind, op.Key, op.Size)
 				}
+				g.mu.Unlock()
 			}
 		}
 		cc.Storage = g.vs
@@ -412,10 +422,12 @@ func (g *rig) panicClass(q *rq) string {
 	switch {
 	case q.InvTrue && g.vs != nil && q.Absent:
 		return "invalidator-on-absent-entry"
-	case g.suspect() != "":
+	case g.suspect() == "|after-invalidator-on-absent-entry":
 		return "after-invalidator-on-absent-entry"
 	case g.overlapped(q):
 		return "entry-fetched-before-lock-race"
+	case g.concurrent:
+		return "after-concurrent-requests"
 	case q.InvTrue:
 		return "sequential|invalidator|" + g.cf.backend()
 	}
@@ -432,7 +444,10 @@ func (g *rig) do(q *rq) {
 		}
 	}
 	dr := g.build(q)
-	q.S = g.tick()
+	g.mu.Lock()
+	g.clk++
+	q.S = g.clk
+	g.mu.Unlock()
 	q.T0 = g.now()
 	func() {
 		defer func() {
@@ -442,7 +457,11 @@ func (g *rig) do(q *rq) {
 		}()
 		q.Resp = g.d.Do(dr)
 	}()
-	q.E = g.tick()
+	g.mu.Lock()
+	g.clk++
+	q.E = g.clk
+	q.T1 = g.now()
+	g.mu.Unlock()
 	if q.Panic == "" {
 		q.Done = true
 		q.Mark = q.Resp.Get("X-Cache")
@@ -477,6 +496,9 @@ func (g *rig) suspect() string {
 		if q.InvTrue && g.vs != nil && q.Absent {
 			return "|after-invalidator-on-absent-entry"
 		}
+	}
+	if g.concurrent {
+		return "|after-concurrent-requests"
 	}
 	return ""
 }
